@@ -46,8 +46,8 @@ def body(run):
         if name == 'nan':
             wins += wins_all
         bandsets = [None]
-        if name == 'nan_3band':
-            bandsets = [None, [2], [3, 1]]
+        if name in ('nan_3band', 'mask_3band', 'rgba_u8'):
+            bandsets = [None, [2], [3, 1], [1, 2]]
         for bands in bandsets:
             for rec in impl_io.read_cases(path, wins, bands):
                 key = (name, tuple(rec['window']), tuple(rec['bands']))
